@@ -6,6 +6,7 @@ import Pymc.Proofs.HashCallManyExamples
 import Pymc.Proofs.HashCallSetExamples
 import Pymc.Proofs.HashPooledCallExamples
 import Pymc.Proofs.HashInnerPlain
+import Pymc.Proofs.HashBroadcastExamples
 /-!
 # C01 — no reply is ever read by the wrong call
 
@@ -1382,5 +1383,187 @@ theorem C01_hash_is_plain_instance (ccfg : Cfg) (fcfg : Failover.Cfg) (route : L
   exact HashInner.runG_plain ccfg fcfg route (HashCall.init servers t0) 0 calls
 
 end hashpooled
+
+/-! ## 13. `HashClient`: the broadcast operations `flush_all`, `quit`, `close` / `disconnect_all`
+
+Model: `Pymc/Model/HashBroadcast.lean`.  A broadcast is `for client in self.clients.values():
+self._safely_run_func(client, client.<op>, False, …)`: it walks over every client object registered in `self.clients`, in
+registration order — also those of servers that are out of rotation — and stops at the first exception that escapes
+`_safely_run_func`.  A public call (`BCall`) is a key-addressed call of section 11 (`.keyed`) or a broadcast
+(`.broadcast op scripts now`: the operation, per server `s` the script `scripts s` of what its connection does during the
+call, the time); `runB` runs a history that mixes them; the observation of a broadcast (`BcObs`) lists its visits in
+order, each with the inner `Client.call (.flushAll …)` / `Client.call .quit` made on the client object registered for that
+server (`ob.steps` = the inner calls of the public call, all tagged with its number); `close` is no `Client.call` (it sends
+and receives nothing): the object simply has no socket afterwards.  The framing hypothesis (`BCall.WellFramed`) for a
+broadcast: every server's script is well-framed for the inner call — one reply line for a `flush_all` that waits, nothing for
+`flush_all(noreply=True)` and for `quit`.  How the failover bookkeeping treats the outcome of each visit — including the
+`ValueError` of `remove_node` for a server that is already out of rotation — is C13 (`C13_hash_broadcast_…`); it does not
+affect ownership of bytes. -/
+section hashbroadcast
+open HashCall
+
+variable {RK : Type}
+
+/-- C01 (`HashClient` with broadcasts, sequences): run any history of key-addressed calls and broadcasts on a fresh
+`HashClient`.  If what arrives on every server's connection during each call is well-framed, then after every call every
+client object registered in `self.clients` that has an open socket — whether or not its server is in rotation, whether or
+not the broadcast got as far as visiting it — has no byte unread in its pipe. -/
+theorem C01_hash_broadcast_sequence_clean (ccfg : Cfg) (fcfg : Failover.Cfg) (route : List Nat → RK → Option Nat)
+    (servers : List Nat) (t0 : Nat) (calls : List (BCall RK))
+    (hwf : ∀ bc ∈ calls, bc.WellFramed ccfg) (n : Nat) :
+    ∀ x ∈ (runB ccfg fcfg route (init servers t0) 0 (calls.take n)).1.clients, x.2.sockOpen = true →
+      joinData (x.2.pipe.map (·.2)) = [] ∧ clean (x.2.pipe.map (·.2)) := by
+  intro x hx hopen
+  have h := (runB_clean ccfg fcfg route (init servers t0) 0 (calls.take n) (pipesClean_init servers t0)
+    (fun bc h => hwf bc (List.mem_of_mem_take h))).1 x hx hopen
+  have hd : Drained (x.2.pipe.map (·.2)) := by
+    rw [drained_iff_all_eintr]
+    intro e he
+    obtain ⟨te, hte, rfl⟩ := List.mem_map.mp he
+    exact h te hte
+  exact hd
+
+/-- C01 (`HashClient` with broadcasts, own bytes only): under the same hypothesis, for every inner call made during public
+call number `i` — one per client the broadcast calls `flush_all` / `quit` on — everything it can see on the socket of the
+client object it runs on, a fortiori everything it consumes, carries tag `i`, except possibly interrupted `recv()`
+attempts: a broadcast reads, on every connection, the reply to its own command and nothing else. -/
+theorem C01_hash_broadcast_own_bytes_only (ccfg : Cfg) (fcfg : Failover.Cfg) (route : List Nat → RK → Option Nat)
+    (servers : List Nat) (t0 : Nat) (calls : List (BCall RK))
+    (hwf : ∀ bc ∈ calls, bc.WellFramed ccfg) :
+    ∀ (i : Nat) (ob : XObs), (runB ccfg fcfg route (init servers t0) 0 calls).2[i]? = some ob →
+      ∀ st ∈ ob.steps,
+        st.idx = i ∧
+        st.consumed ++ st.leftover = st.avail ∧
+        st.leftover.map (·.2) = st.out.unread ∧
+        (∀ te ∈ st.avail, te.1 = i ∨ te.2 = .eintr) ∧
+        (∀ te ∈ st.consumed, te.1 = i ∨ te.2 = .eintr) := by
+  intro i ob hi st hst
+  obtain ⟨hidx, h⟩ := (runB_clean ccfg fcfg route (init servers t0) 0 calls (pipesClean_init servers t0) hwf).2 i ob hi st hst
+  rw [Nat.zero_add] at hidx
+  have hown : ∀ te ∈ st.avail, te.1 = i ∨ te.2 = .eintr := fun te hte => hidx ▸ h.own te hte
+  refine ⟨hidx, h.split, h.left, hown, fun te hte => hown te ?_⟩
+  rw [← h.split]; exact List.mem_append_left _ hte
+
+/-- the five-call history `HashBroadcastExamples.mixCalls` (`get`, `flush_all`, `quit`, `get`, `close` over two servers)
+satisfies the hypothesis; its run shows the `flush_all` reusing the socket the `get` opened on server 0 and connecting to
+server 1, both reading their own `OK` (tags `[1]`, `[1]`), `quit` closing both, the second `get` reconnecting, and `close`
+leaving no socket -/
+example :
+    (∀ bc ∈ HashBroadcastExamples.mixCalls, bc.WellFramed {}) ∧
+    HashBroadcastExamples.xSummary (runB {} HashCallExamples.cfgStrict Failover.prefRoute (init [0, 1] 0) 0 HashBroadcastExamples.mixCalls) =
+      [(.inl (.value (.bytes [120])), [(0, some 0)]),
+       (.inr .done, [(0, some 0), (1, some 1)]),
+       (.inr .done, [(0, some 0), (1, some 1)]),
+       (.inl (.value (.bytes [120])), [(0, some 0)]),
+       (.inr .done, [(0, some 0), (1, some 1)])] ∧
+    HashBroadcastExamples.xTags (runB {} HashCallExamples.cfgStrict Failover.prefRoute (init [0, 1] 0) 0 HashBroadcastExamples.mixCalls) =
+      [[[0]], [[1], [1]], [[], []], [[3]], []] ∧
+    HashBroadcastExamples.xState (runB {} HashCallExamples.cfgStrict Failover.prefRoute (init [0, 1] 0) 0 (HashBroadcastExamples.mixCalls.take 2)) =
+      ({ nodes := [0, 1], failed := [], dead := [], lastDeadCheck := 0 }, [(0, 0, true, 0), (1, 1, true, 0)]) ∧
+    HashBroadcastExamples.xState (runB {} HashCallExamples.cfgStrict Failover.prefRoute (init [0, 1] 0) 0 HashBroadcastExamples.mixCalls) =
+      ({ nodes := [0, 1], failed := [], dead := [], lastDeadCheck := 0 }, [(0, 0, false, 0), (1, 1, false, 0)]) :=
+  ⟨HashBroadcastExamples.mixCalls_wf, HashBroadcastExamples.demo_mix.1, HashBroadcastExamples.demo_mix.2.1,
+    HashBroadcastExamples.demo_mix.2.2.1, HashBroadcastExamples.demo_mix.2.2.2⟩
+
+/-- C01 (`HashClient` with broadcasts, the step is the inner call): from any state, every inner call of a broadcast is
+`Client.call` (with `ignore_exc=False`) for the broadcast's operation on some client object (socket state `so`, pipe
+`left`) under the script of one server's connection, with that call's `recv()` results tagged with the number of the public
+call — exactly one step of `Framing.runTaggedFrom`: what a visit returns is computed from what is on that object's own
+socket. -/
+theorem C01_hash_broadcast_step_is_client_call (ccfg : Cfg) (fcfg : Failover.Cfg) (st : St) (idx now : Nat) (op : BOp)
+    (scripts : Nat → Script) :
+    ∀ stp ∈ (broadcastH ccfg fcfg st idx now op scripts).2.steps,
+      ∃ call s so left, op.call? = some call ∧
+        stp = PooledCall.stepTagged ccfg idx so left call (scripts s) ∧
+        runTaggedFrom ccfg false idx so left [(call, scripts s)] = [stp] := by
+  intro stp hstp
+  obtain ⟨call, s, so, left, hc, h⟩ := broadcastH_steps ccfg fcfg st idx now op scripts stp hstp
+  exact ⟨call, s, so, left, hc, h, by rw [h]; rfl⟩
+
+/-- non-vacuity: the `flush_all` of `mixCalls` makes two inner calls -/
+example :
+    ((broadcastH {} HashCallExamples.cfgStrict (init [0, 1] 0) 0 0 HashBroadcastExamples.flushOp HashBroadcastExamples.allUp).2.steps).length = 2 := by
+  decide +kernel
+
+/-- C01 (`HashClient` with broadcasts, sequences, broken connections): if what arrives on every server's connection
+during each call is fault-framed (`BCall.FaultFramed`: the owed reply, or a strict prefix of it cut at any byte by
+end-of-stream or an exception), then after every call no byte is readable, before a fault, from the pipe of any
+registered client object with an open socket. -/
+theorem C01_hash_broadcast_sequence_clean_faults (ccfg : Cfg) (fcfg : Failover.Cfg) (route : List Nat → RK → Option Nat)
+    (servers : List Nat) (t0 : Nat) (calls : List (BCall RK))
+    (hff : ∀ bc ∈ calls, bc.FaultFramed ccfg) (n : Nat) :
+    ∀ x ∈ (runB ccfg fcfg route (init servers t0) 0 (calls.take n)).1.clients, x.2.sockOpen = true →
+      quiet (x.2.pipe.map (·.2)) :=
+  (runB_quiet ccfg fcfg route (init servers t0) 0 (calls.take n) (pipesQuiet_init servers t0)
+    (fun bc h => hff bc (List.mem_of_mem_take h))).1
+
+/-- C01 (`HashClient` with broadcasts, own bytes only, broken connections): everything an inner call of public call `i` can
+possibly receive — the pipe content of its client object up to the first fault — carries tag `i` or is an interrupted
+attempt without bytes; and an inner call whose client object keeps its socket has consumed only such events. -/
+theorem C01_hash_broadcast_own_bytes_only_faults (ccfg : Cfg) (fcfg : Failover.Cfg) (route : List Nat → RK → Option Nat)
+    (servers : List Nat) (t0 : Nat) (calls : List (BCall RK))
+    (hff : ∀ bc ∈ calls, bc.FaultFramed ccfg) :
+    ∀ (i : Nat) (ob : XObs), (runB ccfg fcfg route (init servers t0) 0 calls).2[i]? = some ob →
+      ∀ st ∈ ob.steps,
+        st.idx = i ∧
+        st.consumed ++ st.leftover = st.avail ∧
+        st.leftover.map (·.2) = st.out.unread ∧
+        (∀ te ∈ readable st.avail, te.1 = i ∨ te.2 = .eintr) ∧
+        (st.out.sockOpen = true → ∀ te ∈ st.consumed, te.1 = i ∨ te.2 = .eintr) := by
+  intro i ob hi st hst
+  obtain ⟨hidx, h⟩ := (runB_quiet ccfg fcfg route (init servers t0) 0 calls (pipesQuiet_init servers t0) hff).2 i ob hi st hst
+  rw [Nat.zero_add] at hidx
+  have hown : ∀ te ∈ readable st.avail, te.1 = i ∨ te.2 = .eintr := fun te hte => hidx ▸ h.own te hte
+  exact ⟨hidx, h.split, h.left, hown, fun ho te hte => hown te (h.taken ho te hte)⟩
+
+/-- the fault hypothesis is satisfiable: in `HashBroadcastExamples.cutCallsB` the connection of server 1 breaks after `O`
+in the middle of the reply to a `flush_all` (`MemcacheUnexpectedCloseError` escapes after both servers were visited, the
+inner client closes its socket); the next `flush_all` is served over a new connection and sees nothing of the cut reply -/
+example :
+    (∀ bc ∈ HashBroadcastExamples.cutCallsB, bc.FaultFramed {}) ∧
+    HashBroadcastExamples.xSummary (runB {} HashCallExamples.cfgStrict Failover.prefRoute (init [0, 1] 0) 0 HashBroadcastExamples.cutCallsB) =
+      [(.inr (.raised 1 .unexpectedClose), [(0, some 0), (1, some 1)]),
+       (.inr .done, [(0, some 0), (1, some 1)])] ∧
+    HashBroadcastExamples.xTags (runB {} HashCallExamples.cfgStrict Failover.prefRoute (init [0, 1] 0) 0 HashBroadcastExamples.cutCallsB) =
+      [[[0], [0, 0]], [[1], [1]]] ∧
+    HashBroadcastExamples.xState (runB {} HashCallExamples.cfgStrict Failover.prefRoute (init [0, 1] 0) 0 HashBroadcastExamples.cutCallsB) =
+      ({ nodes := [0, 1], failed := [], dead := [], lastDeadCheck := 0 }, [(0, 0, true, 0), (1, 1, true, 0)]) :=
+  ⟨HashBroadcastExamples.cutCallsB_ff, HashBroadcastExamples.demo_cutB.1, HashBroadcastExamples.demo_cutB.2.1,
+    HashBroadcastExamples.demo_cutB.2.2⟩
+
+/-- C01 (`HashClient`, `quit` / `close` leave no socket on the clients they reach): from any state, after a `quit()` or a
+`close()` / `disconnect_all()`, every client object the function was called on (`v.invoked`) has no socket — together with
+`C01_hash_broadcast_sequence_clean`: every client a broadcast contacts ends with its socket closed or with nothing unread
+on it.  (Not reached: a client inside its retry window — `_safely_run_func` returns `default_val` without calling the
+function —, and the clients after an exception that escapes.) -/
+theorem C01_hash_broadcast_quit_close_leave_no_socket (ccfg : Cfg) (fcfg : Failover.Cfg) (st : St) (idx now : Nat) (op : BOp)
+    (scripts : Nat → Script) (hop : op.closes = true) :
+    ∀ v ∈ (broadcastH ccfg fcfg st idx now op scripts).2.visits, v.invoked = true →
+      ∀ x ∈ (broadcastH ccfg fcfg st idx now op scripts).1.clients, x.1 = v.server → x.2.sockOpen = false :=
+  fun v hv hi => (bloop_closes ccfg fcfg idx now op scripts hop st st.servers).2 v hv hi
+
+/-- non-vacuity: in `mixCalls` the `quit` (call 2) is made with both sockets open and reaches both clients -/
+example :
+    (HashBroadcastExamples.xState (runB {} HashCallExamples.cfgStrict Failover.prefRoute (init [0, 1] 0) 0 (HashBroadcastExamples.mixCalls.take 2))).2 =
+      [(0, 0, true, 0), (1, 1, true, 0)] ∧
+    (HashBroadcastExamples.xState (runB {} HashCallExamples.cfgStrict Failover.prefRoute (init [0, 1] 0) 0 (HashBroadcastExamples.mixCalls.take 3))).2 =
+      [(0, 0, false, 0), (1, 1, false, 0)] ∧ BOp.quit.closes = true := by
+  refine ⟨by decide +kernel, by decide +kernel, rfl⟩
+
+/-- C01 (`HashClient`, sections 11 and 13 agree): on a history of key-addressed calls the general run `runB` is the run
+`runM` of section 11 — same final state, same observations. -/
+theorem C01_hash_broadcast_extends_keyed (ccfg : Cfg) (fcfg : Failover.Cfg) (route : List Nat → RK → Option Nat)
+    (servers : List Nat) (t0 : Nat) (calls : List (MCall RK)) :
+    runB ccfg fcfg route (init servers t0) 0 (calls.map MCall.toB) =
+      ((runM ccfg fcfg route (init servers t0) 0 calls).1,
+       (runM ccfg fcfg route (init servers t0) 0 calls).2.map XObs.keyed) :=
+  runB_keyed ccfg fcfg route (init servers t0) 0 calls
+
+/-- non-vacuity: the key-addressed history `HashCallExamples.setCalls` of section 11 as a general history -/
+example :
+    (runB {} HashCallExamples.cfgStrict Failover.prefRoute (init [0, 1] 0) 0 (HashCallExamples.setCalls.map MCall.toB)).2.length = 7 := by
+  rw [runB_length]; rfl
+
+end hashbroadcast
 
 end C01
